@@ -75,6 +75,8 @@ struct vs_record {
   volatile uint32_t ev_count[16];  /* H2 task events: per task index begin counts */
   char note[512];                  /* deadlock description etc. */
   struct vs_config cfg;            /* request for the in-process executor */
+  volatile uint32_t req_len;       /* batch mode: packed argv/env/chdir of this case */
+  char req[1 << 16];
   struct vs_cp cp[VS_MAXCP];
   uint64_t state[VS_MAXCP];        /* hash of sampled scheduler state at each CP_SCHED */
   uint32_t trace_n;
@@ -97,6 +99,7 @@ extern struct vs_record *vs_rec;
 void vs_begin(void);              /* call in the child before lbzip2_main */
 void vs_inproc_init(int argc, char **argv);   /* executor process: once */
 void vs_inproc_run(void);                     /* executor: one execution with vs_cfg */
+void vs_inproc_set_args(int argc, char **argv);
 int lbzip2_main(int argc, char **argv);
 
 #endif
